@@ -7,6 +7,8 @@ from .prune import is_call
 
 LEVEL = 'other'
 RULES = {
+    'C06.R9': 'the path polytope handed to the LP is the conjunction of the path conditions (shared with C09.R1)',
+    'C06.R8': 'the links, leaf flags and node set this property reads are what the arena mutators maintain as their effect contracts say (shared with C12.R2)',
     'C06.R7': helpers.RULE_TEXT,
     'C06.R1': 'every non-root node with an Indeterminate cache passes phase_inh -> phase_one -> phase_two (each only if the previous left it Indeterminate) and the result is stored; the only skips are the root and the cached-state arms',
     'C06.R2': 'from an Infeasible classification every path queues the node\'s parent edge for removal and skips its subtree; every queued entry reaches try_remove_child; a cached Infeasible node has its subtree skipped',
@@ -15,7 +17,7 @@ RULES = {
     'C06.R4': 'the cached-state arms perform no mutation of the tree (a second run changes nothing)',
     'C06.R6': 'no function of the elimination (infeasible_elimination and the AffTree methods it reaches) resets a stored verdict to Indeterminate or borrows it mutably',
 }
-FLOORS = {'C06.R7': 4, 'C06.R1': 4, 'C06.R2': 3, 'C06.R3': 1, 'C06.R4': 2, 'C06.R5': 12, 'C06.R6': 4}
+FLOORS = {'C06.R9': 2, 'C06.R8': 15, 'C06.R7': 4, 'C06.R1': 4, 'C06.R2': 3, 'C06.R3': 1, 'C06.R4': 2, 'C06.R5': 12, 'C06.R6': 4}
 EXPLANATION = 'Must-classify / must-remove / must-forward path rules over the traversal loop of infeasible_elimination.'
 DOES_NOT_DECIDE = 'emptiness itself (the LP answer, C10); terminal-count bounds for distilled networks'
 CACHED = {'Infeasible', 'Feasible', 'FeasibleWitness'}
@@ -87,6 +89,8 @@ def no_downgrade(ctx):
 
 def run(ctx):
     helpers.run_for(ctx)
+    helpers.share_from(ctx, 'c09', 'C06.R9', ['PolyhedraGen::next#sign-table', 'AffTree::polyhedral_path_characterization#sign-table'])
+    helpers.share_arena_contracts(ctx, 'C06.R8')
     shared_cache_rules(ctx)
     no_downgrade(ctx)
     b = ctx.body('C06.R1', 'AffTree::infeasible_elimination')
